@@ -403,7 +403,7 @@ class CipherScenario(Scenario):
             elif how == "bad-base64":
                 stored["ciphertext"] = rng_choice(n, ["a", "abc", "=abcd", "ab=c", "a" * 5])
             elif how == "not-a-map":
-                stored = rng_choice(n, [5, ["aes", "x"], True, 1.5, ("aes",)])
+                stored = rng_choice(n, [5, ["aes", "x"], True, 1.5, ("aes",), 0, [], False, 0.0, {}, ()])
         if via == "provider" and how in ("short", "unaligned"):
             prov = AesProvider(key) if it["method"] == "aes" else XorProvider(key)
             out, err = self._call(lambda: prov.decrypt(ct2))
